@@ -42,7 +42,7 @@ a handler), a size nobody generated (exactly 65,535 characters, 15 user dictiona
 1,024 dictionary forms, 33 threads), or an API sequence (resolve, then read more rows; a second `read_conn`; analysing
 into a list that was the target of a split). The workloads were extended every time (see the `notes` of each
 `seeded/<id>/meta.json`) and all of these are detected now, but the honest expectation for a change nobody has seeded yet
-is a detection rate of roughly 60 %, not 98 %. One miss of round six was a defect of the harness itself: each worker listed
+is a detection rate of roughly 60 %%, not 98 %%. One miss of round six was a defect of the harness itself: each worker listed
 only its first 40 violation records and records labelled as known finding D1 filled that list (labelled and unlabelled
 records now have separate quotas). Side remarks of the agents about the unchanged tree led to defects D25 - D30 of 12.3.
 
